@@ -401,23 +401,47 @@ func ruleUpgradeOrder(c *eng.Ctx) {
 			c.MustPass(rule, "UpgradeRepo:only-version-1", eng.Entry(fn), ui, eng.NewCut().AddEdges(v1...), "repo.Config().Version == 1")
 			c.MustPass(rule, "UpgradeRepo:raw-config-backed-up→upgrade", eng.Entry(fn), ui, eng.SuccessCut(wf...), "the raw old config was written to a local backup file")
 			c.MustPass(rule, "UpgradeRepo:raw-config-loaded→upgrade", eng.Entry(fn), ui, eng.SuccessCut(lr...), "the raw old config was loaded")
-			// failure: re-upload the old raw config
+			// failure: re-upload the old raw config. The rollback may live in UpgradeRepo itself
+			// or in a private helper it calls after the failed upgrade (rb, entered at rbStart).
+			isSave := func(call ssa.CallInstruction) bool { return eng.IsMethodOf(call, be, "Save") }
+			rb, rbStart := fn, eng.After(ui)
+			var rbCall ssa.CallInstruction
 			var resave []ssa.CallInstruction
 			for _, call := range eng.Calls(fn) {
-				if eng.IsMethodOf(call, be, "Save") {
+				if isSave(call) {
 					resave = append(resave, call)
+				}
+			}
+			if len(resave) == 0 {
+				for _, call := range callsReaching(c, fn, 1, isSave) {
+					if h := call.Common().StaticCallee(); h != nil && len(h.Blocks) > 0 && eng.FindPath(eng.After(ui), call.(ssa.Instruction), nil) != nil {
+						rb, rbStart, rbCall = h, eng.Entry(h), call
+					}
+				}
+				for _, call := range eng.Calls(rb) {
+					if rb != fn && isSave(call) {
+						resave = append(resave, call)
+					}
+				}
+			}
+			inFn := resave
+			if rbCall != nil {
+				inFn = []ssa.CallInstruction{rbCall}
+				// inside the helper every way out passes the upload
+				for _, r := range eng.Returns(rb) {
+					c.MustPass(rule, "UpgradeRepo:rollback-helper→re-upload-old-config", rbStart, r, eng.CallCut(resave...), "the old raw config was uploaded again")
 				}
 			}
 			for _, r := range eng.Returns(fn) {
 				if eng.FindPath(eng.After(ui), r, nil) == nil {
 					continue
 				}
-				c.MustPass(rule, "UpgradeRepo:failed-upgrade→re-upload-old-config", eng.After(ui), r, eng.Union(eng.SuccessCut(u), eng.CallCut(resave...)), "the upgrade succeeded, or the old raw config was uploaded again")
+				c.MustPass(rule, "UpgradeRepo:failed-upgrade→re-upload-old-config", eng.After(ui), r, eng.Union(eng.SuccessCut(u), eng.CallCut(inFn...)), "the upgrade succeeded, or the old raw config was uploaded again")
 			}
 			// whatever the failed attempt left under the config name is removed before the
 			// re-upload (backends without atomic replace refuse to overwrite an existing file)
 			var removes []ssa.CallInstruction
-			for _, call := range eng.Calls(fn) {
+			for _, call := range eng.Calls(rb) {
 				if eng.IsMethodOf(call, be, "Remove") {
 					removes = append(removes, call)
 				}
@@ -430,12 +454,12 @@ func ruleUpgradeOrder(c *eng.Ctx) {
 				return atomicF != nil && eng.LoadsField(v, atomicF)
 			}
 			for _, s := range resave {
-				c.MustPass(rule, "UpgradeRepo:leftover-removed→re-upload-old-config", eng.After(ui), s.(ssa.Instruction), eng.Union(eng.CallCut(removes...), eng.NewCut().AddEdges(eng.BoolEdges(fn, isAtomic, true)...)), "be.Remove(config) executed before the old config is uploaded again, unless the backend replaces files atomically")
+				c.MustPass(rule, "UpgradeRepo:leftover-removed→re-upload-old-config", rbStart, s.(ssa.Instruction), eng.Union(eng.CallCut(removes...), eng.NewCut().AddEdges(eng.BoolEdges(rb, isAtomic, true)...)), "be.Remove(config) executed before the old config is uploaded again, unless the backend replaces files atomically")
 			}
 			// where files are replaced atomically the failed upgrade left the old config in place:
 			// the rollback must not remove it, its own upload may fail as well (genuine defect, fixed)
 			for _, rm := range removes {
-				c.MustPass(rule, "UpgradeRepo:rollback-removes-only-without-atomic-replace", eng.After(ui), rm.(ssa.Instruction), eng.NewCut().AddEdges(eng.BoolEdges(fn, isAtomic, false)...), "the backend cannot replace a file atomically (HasAtomicReplace is false)")
+				c.MustPass(rule, "UpgradeRepo:rollback-removes-only-without-atomic-replace", rbStart, rm.(ssa.Instruction), eng.NewCut().AddEdges(eng.BoolEdges(rb, isAtomic, false)...), "the backend cannot replace a file atomically (HasAtomicReplace is false)")
 			}
 			for _, s := range resave {
 				okRaw := false
@@ -444,6 +468,18 @@ func ruleUpgradeOrder(c *eng.Ctx) {
 					for _, r := range eng.Origins(eng.Arg(s, 2), &eng.OriginOpts{P: c.P, Through: byteReaderThrough}) {
 						if len(res) > 0 && r == res[0] {
 							okRaw = true
+						}
+						// inside a helper: the bytes are a parameter, bound at the call to the loaded config
+						if prm, isP := r.(*ssa.Parameter); isP && rbCall != nil && len(res) > 0 {
+							for i, hp := range rb.Params {
+								if hp == prm && i < len(rbCall.Common().Args) {
+									for _, o := range eng.Origins(rbCall.Common().Args[i], nil) {
+										if o == res[0] {
+											okRaw = true
+										}
+									}
+								}
+							}
 						}
 					}
 				}
